@@ -79,6 +79,7 @@ abbrev Vec := List Nat
     or the cleanup itself (`os.path.exists` / `os.remove`) raised -/
 inductive Res where
   | ok | raised | cleanupRaised
+  | cancelled                               -- never ran: dropped from the pool's queue
   deriving DecidableEq, Repr
 
 /-- program counter of one save job (the step it is about to execute) -/
@@ -119,14 +120,18 @@ structure Sys where
 inductive Label where
   | mbegin | mwrite (c : Nat) | mend (submit : Bool) | spawn
   | adv (j : Nat) | fault (j : Nat) | crash
+  | cancel (j : Nat)                        -- a job still queued in the pool (no worker has picked it
+                                            --   up) is dropped: `Future.cancel()`, or
+                                            --   `executor.shutdown(cancel_futures=True)` on the stop path
   deriving DecidableEq, Repr
 
 /-- a schedule step that is neither a fault, nor a crash, nor the end of a state change for which no
-    save is submitted afterwards -/
+    save is submitted afterwards, nor the dropping of a queued save job -/
 def Label.quiet : Label → Bool
   | .fault _ => false
   | .crash => false
   | .mend false => false
+  | .cancel _ => false
   | _ => true
 
 /-- a whole change of the state that stores into the components `cs`, then submits its save -/
@@ -233,6 +238,10 @@ def step (locked slocked : Bool) (ser : Vec → Content) (s : Sys) (l : Label) :
   | .adv j => adv locked slocked ser s j
   | .fault j => fault slocked s j
   | .crash => some { s with crashed := true }
+  | .cancel j =>
+    match s.jobs j with
+    | .start => some (setJob s j (.done .cancelled))
+    | _ => none
 
 /-- run a schedule; `none` if some label is not enabled where it stands -/
 def exec (locked slocked : Bool) (ser : Vec → Content) : List Label → Sys → Option Sys
